@@ -63,6 +63,8 @@ def emit(node):
     k = node['k']
     if k == 'raw':
         return node['text']
+    if k == 'empty':
+        return ''          # an empty YAML document (yields no stage at all)
     tag = node.get('tag')
     pre = (tag + ' ') if tag else ''
     if k == 's':
